@@ -61,6 +61,17 @@ CHECKS = {
         note="Where the reference graph branches and several reachable DIEs define a lacking attribute, the statement does not say which supplies it: presence is "
              "checked, form/value are not.  Known finding S3 is matched by exactly that DIE shape.",
         design="DESIGN.md 5-C06"),
+    "C07": dict(
+        technique="ground truth by construction: decoding table over generated attribute instances (every form x boundary values x type encodings) vs the engine's values",
+        category="exploration",
+        text="Generated DIEs carry DW_AT_const_value in data1/2/4/8, sdata, udata, implicit_const and block forms at boundary values on variables, template value "
+             "parameters and enumerators whose type is signed, unsigned, char, boolean, UTF, address, float, pointer, decltype(nullptr), struct, reached through "
+             "typedef/const/volatile/restrict chains, and enumerations with and without underlying type; plus strings (string/strp/line_strp), flags, addresses, every "
+             "reference form, enumerated attributes in and out of the named range, signed/unsigned/hex attribute classes, user attributes.  Each decoded value must have "
+             "the expected kind, number, sign, domain and rendering (names from dwarf.h); uninterpretable cases (float/struct typed data, block for a pointer, ref_sig8, "
+             "discr_value, unknown attribute, data16) must give an error, a diagnostic or a raw block, never a silent number.",
+        note="The decoding table encodes the statement plus the tool's documented fixed signedness for attributes like upper_bound; compiler objects are covered structurally by C02/C06.",
+        design="DESIGN.md 5-C07"),
     "C08": dict(
         technique="exact big-integer oracle over recorded operator events (direct calls into int.cc + queries) under ASan/UBSan",
         category="exploration",
@@ -147,6 +158,27 @@ CHECKS = {
              "against a Python set model (values, positions, domains, rendering, equality of differently built equal sets). H4 asserts canonical form inside the library.",
         note="Scoped, as the statement is, to ranges ending at or below 2^64-1. Exhaustive only within the small universe; larger sets are sampled.",
         design="DESIGN.md 5-C16"),
+    "C17": dict(
+        technique="ground truth by construction for generated location expressions/lists and abbreviation tables + metamorphic laws on samples and compiler output",
+        category="exploration",
+        text="Expressions generated per operand class (none, 1/2/4/8-byte and LEB signed/unsigned at boundaries, two operands, address, block, DIE reference, "
+             "CU-relative type offset, nested expression; GNU and DWARF 5 spellings) are stored as exprloc, block1/2/4, .debug_loc (with base-address entries) and "
+             ".debug_loclists (offset_pair, base_address, start_end, start_length) on location/frame_base/data_member_location; elements must be the ranges in "
+             "stored order, every operation must report stored offset, opcode and operands, length = #elem, relem = elem reversed, ?OP_x iff present, address = range; "
+             "every DIE's `abbrev` must match its code, tag, child flag and (name, form) list with DW_FORM_indirect preserved, `abbrev entry` must list every "
+             "abbreviation of every (possibly shared, sparsely numbered) table exactly once.",
+        note="DW_OP_skip/bra and negative implicit_pointer offsets are not generated (libdw validates / reads them unsigned).",
+        design="DESIGN.md 5-C17"),
+    "C18": dict(
+        technique="independent struct-level ELF symbol table reader + elf.h-derived names vs the engine's `symbol` enumeration",
+        category="exploration",
+        text="Generated symbol tables (all 16x16 type/binding codes x visibilities, zero size, SHN_ABS/UNDEF, section symbols, empty and 4 KB names, 0 to 5000 symbols, "
+             "ELF32/ELF64, LSB/MSB, ET_REL/EXEC/DYN) for every machine elf.h knows, the sample binaries (x86-64, ARM, MIPS, PPC64) and freshly linked objects are "
+             "read by a Python struct reader; `symbol` must yield every entry once, in order, numbered from zero, with equal name/value/address/size/type/binding/"
+             "visibility, type and binding rendered under the name elf.h gives that code for the file's machine; machine-specific codes of different machines must "
+             "never compare equal, common codes must.",
+        note="Values of symbols defined in sections of ET_REL files are relocated by libdwfl and not judged.",
+        design="DESIGN.md 5-C18"),
     "C19": dict(
         technique="contract-model monitor of the real CLI: exit status / stdout / stderr predicted from library facts (zwdrv) for generated invocations",
         category="exploration",
